@@ -65,8 +65,13 @@ def generate(repo):
     body = _body(meths['_resolve_path'])
     if len(body) != 3:
         raise ExtractError('_resolve_path: expected 3 statements, got: ' + ast.unparse(meths['_resolve_path']))
-    if ast.unparse(body[0]) != 'abs_path = os.path.abspath(os.path.join(self.path, path))':
-        raise ExtractError('_resolve_path: unrecognised first statement: ' + ast.unparse(body[0]))
+    first = ast.unparse(body[0])
+    if first == 'abs_path = os.path.abspath(os.path.join(self.path, path))':
+        fold_slash = False
+    elif first == "abs_path = os.path.abspath(os.path.join(self.path, path.replace('\\\\', '/')))":
+        fold_slash = True
+    else:
+        raise ExtractError('_resolve_path: unrecognised first statement: ' + first)
     if not (isinstance(body[1], ast.If) and not body[1].orelse and len(body[1].body) == 1
             and ast.unparse(body[1].body[0]) == 'raise RootEscapeError(self.path, path)'):
         raise ExtractError('_resolve_path: unrecognised check: ' + ast.unparse(body[1]))
@@ -118,6 +123,11 @@ def generate(repo):
     out.append('')
     out.append(f'/-- the test guarding `raise RootEscapeError` in `RawFileSystem._resolve_path`: `{test}` -/')
     out.append(f'def containKind : C18.ContainKind := .{kind}')
+    out.append('')
+    out.append(f'/-- first statement of `_resolve_path`: `{first}` -/')
+    out.append(f'def foldSlash : Bool := {"true" if fold_slash else "false"}')
+    out.append('')
+    out.append('def cfg : C18.Cfg := ⟨containKind, foldSlash⟩')
     out.append('')
     out.append('/-- `RawFileSystem.__init__` stores `os.path.abspath(path)`. -/')
     out.append(f'def rootIsAbspath : Bool := {"true" if root_abs else "false"}')
